@@ -374,7 +374,31 @@ class ExprMixin:
                 raise Unsupported(f"`in` on {b.ty}", node)
             r = cs.contains(self, st, b, a)
             return z_not(r) if isinstance(op, ast.NotIn) else r
-        return ops.compare(op, a, b, node)
+        r = ops.compare(op, a, b, node)
+        if isinstance(op, (ast.In, ast.NotIn)) and getattr(self.c, "seq_positions", False) and isinstance(b.ty, T.List) and not b.is_py and not isinstance(r, bool):
+            self.member_position(a, b, st)
+        return r
+
+    def member_position(self, x: Val, seq: Val, st):
+        """seq_positions=True: `x in L` comes with a position witness: (x in L) => 0 <= p < len(L) and L[p] == x,
+        p a fresh constant (a fresh function of the bound variables under quantifiers)."""
+        from .core import seq_contains_elem
+
+        L = lift(seq)
+        xv = lift(x, seq.ty.elem)
+        qvars = [v for vs, _ in self.qstack for v in vs]
+        if qvars:
+            p = z3.Function(fresh_name("mpos"), *[v.sort() for v in qvars], z3.IntSort())(*qvars)
+        else:
+            p = z3.Int(fresh_name("mpos"))
+        fact = z3.Implies(seq_contains_elem(L, xv), z3.And(p >= 0, p < z3.Length(L), L[p] == xv))
+        if qvars:
+            fact = z3.ForAll(qvars, fact)
+            # facts about bound variables must reach the enclosing state: the sub-state of the quantifier is discarded
+            for outer in getattr(self, "qouter", [])[:1]:
+                outer.assume(fact)
+                return
+        st.assume(fact)
 
     # ---- attribute / subscript -----------------------------------------------------
     def e_Attribute(self, node, st):
